@@ -297,6 +297,45 @@ def _cov_tol(ref, r, dr, scale):
     return 1e-9 * scale + 2.0 * np.maximum(up, dn)
 
 
+def _dcov(ref, r, dr):
+    """Variation of the radial covariance over [r-dr, r+dr] (r known to +-dr)."""
+    r = np.asarray(r, dtype=float)
+    c0 = ref.covariance(r)
+    up = np.abs(ref.covariance(r + dr) - c0)
+    dn = np.abs(ref.covariance(np.maximum(r - dr, 0.0)) - c0)
+    return np.maximum(up, dn)
+
+
+def _krige_sens(ref, nugget, d_cc, d_ct, dr):
+    """Conditioning of a kriging system w.r.t. rounding of the positions.
+
+    Returns (dC, lam, ninv): dC = largest change of a covariance entry when the
+    distances move by dr (large only for coincident points of models that are not
+    Lipschitz at the origin, e.g. Matern nu < 0.5, Stable alpha < 1), lam = largest
+    l1-norm of the kriging weights (simple and ordinary), ninv = ||C^-1||_1.
+    Then |d est| <= |z - m| ninv n dC (1 + lam), |d var| <= (2 lam + lam^2) dC.
+    None when the radial function itself is not finite there (C03's subject).
+    """
+    n = d_cc.shape[0]
+    off = ~np.eye(n, dtype=bool)
+    parts = [_dcov(ref, d_ct, dr).ravel()]
+    if n > 1:
+        parts.append(_dcov(ref, d_cc[off], dr).ravel())
+    dC = float(np.max(np.concatenate(parts)))
+    C = ref.covariance(d_cc) + nugget * np.eye(n)
+    c = ref.covariance(d_ct)
+    if not (np.isfinite(dC) and np.all(np.isfinite(C)) and np.all(np.isfinite(c))):
+        return None
+    Ci = np.linalg.pinv(C)
+    w = Ci @ c
+    one = np.ones(n)
+    den = float(one @ Ci @ one)
+    w_ok = w + np.outer(Ci @ one, (1.0 - one @ w)) / den if abs(den) > 0 else w
+    lam = float(max(np.max(np.sum(np.abs(w), axis=0)), np.max(np.sum(np.abs(w_ok), axis=0))))
+    ninv = float(np.max(np.sum(np.abs(Ci), axis=0)))
+    return dC, lam, ninv
+
+
 def _oracle_iso(lat, lon, g, t=None, ta=1.0):
     """Oracle isotropic positions: g * unit vector (+ t / ta)."""
     p = g * geo.latlon_to_unit(lat, lon)
@@ -883,14 +922,17 @@ def check_cov(case, rec):
         cy = lib(model.cov_yadrenko, arc2 * g, _tags=tags)
         co = ref.covariance(d_or2)
         tl = _cov_tol(ref, d_or2, dr, spec["var"])
+        fin = np.isfinite(co) & np.isfinite(tl)
+        if not fin.all():
+            rec.exclude("ref_model_not_finite")  # radial function itself NaN (C03's subject)
         require(
-            bool(np.all(np.abs(cy - co) <= tl)),
-            f"cov_yadrenko(gc*geo_scale) != covariance(chord): max diff {np.max(np.abs(cy - co)):.3g}",
+            bool(np.all(np.abs(cy - co)[fin] <= tl[fin])),
+            f"cov_yadrenko(gc*geo_scale) != covariance(chord): max diff {np.max(np.abs(cy - co)[fin], initial=0):.3g}",
             dict(tags, kind="yadrenko"),
         )
         cm = model.covariance(d_lib2)
         require(
-            bool(np.all(np.abs(cm - cy) <= tl)),
+            bool(np.all(np.abs(cm - cy)[fin] <= tl[fin])),
             "covariance of Krige distances != cov_yadrenko of the great-circle distance",
             dict(tags, kind="krige_cov_yadrenko"),
         )
@@ -905,7 +947,11 @@ def check_cov(case, rec):
     r = d_or2[0]
     c_or = ref.covariance(r)
     tol = _cov_tol(ref, r, dr, sill * max(1.0, (abs(mean) + abs(z)) / abs(z - mean)))
-    errv = np.abs(c_used - c_or)
+    fin = np.isfinite(c_or) & np.isfinite(tol)
+    if not fin.all():
+        rec.exclude("ref_model_not_finite")
+    errv = np.where(fin, np.abs(c_used - c_or), 0.0)
+    tol = np.where(fin, tol, 1.0)
     rec.discrepancy("covx", float(np.max(errv / tol)), 1.0)
     require(
         bool(np.all(errv <= tol)),
@@ -914,7 +960,7 @@ def check_cov(case, rec):
         + f": max diff {np.max(errv):.3g} at target {int(np.argmax(errv / tol))}",
         dict(tags, kind="covx"),
     )
-    informative = bool(np.any((c_or > 1e-6 * spec["var"]) & (c_or < (1 - 1e-6) * spec["var"])))
+    informative = bool(np.any(fin & (c_or > 1e-6 * spec["var"]) & (c_or < (1 - 1e-6) * spec["var"])))
     rec.label("cov:informative" if informative else "cov:flat")
     rec.nontrivial(
         informative
@@ -1018,7 +1064,27 @@ def check_srf(case, rec):
     k3 = _mk_krige(ref, case, iso_o[:, :nc].copy(), tags)
     c3 = lib(gs.CondSRF, k3, mode_no=case["mode_no"], _tags=tags)
     fld3 = lib(c3, iso_o.copy(), seed=case["seed"], _what="CondSRF 3-D", _tags=tags)
-    tolm = max(1e-8, 1e-12 * kc) * zs + 2 * math.sqrt(64 * EPS * max(kc, 1.0)) * raw + 4 * tol
+    ct = tt[:nc] if T else None
+    d_cc, _ = _oracle_dist(clat, clon, clat, clon, g, ct, ct, ta)
+    d_ct, _ = _oracle_dist(clat, clon, lat, lon, g, ct, tt, ta)
+    d_ct[np.arange(nc), np.arange(nc)] = np.inf  # a datum as its own target: exactly zero in both runs
+    sens = _krige_sens(ref, spec["nugget"], d_cc, np.where(np.isfinite(d_ct), d_ct, 0.0), 64 * EPS * xmax)
+    if sens is None:
+        rec.exclude("ref_model_not_finite")
+        rec.nontrivial(False)
+        return
+    dC = float(np.max(_dcov(ref, d_ct[np.isfinite(d_ct)], 64 * EPS * xmax), initial=0.0))
+    dC = max(dC, float(np.max(_dcov(ref, d_cc[~np.eye(nc, dtype=bool)], 64 * EPS * xmax), initial=0.0)))
+    _dc, lam, ninv = sens
+    extra_est = 2 * zs * ninv * nc * dC * (1 + lam)
+    extra_var = (2 * lam + lam**2) * dC
+    tolm = (
+        max(1e-8, 1e-12 * kc) * max(zs, float(np.max(np.abs(fld3))))
+        + 2 * math.sqrt(64 * EPS * max(kc, 1.0)) * raw
+        + 4 * tol
+        + extra_est
+        + math.sqrt(extra_var / spec["var"]) * raw
+    )
     err = float(np.max(np.abs(fld - fld3)))
     rec.discrepancy("condsrf_3d", err, tolm)
     require(
@@ -1420,6 +1486,24 @@ def check_rotation(case, rec):
     sill = spec["var"] + spec["nugget"]
     zs = max(1.0, float(np.max(np.abs(case["cond_val"]))), abs(case["mean"]))
     worst = 0.0
+    # conditioning w.r.t. rounding of the positions (matters for targets that
+    # coincide with a datum when the model is not Lipschitz at the origin)
+    ref = _ref_model(spec, tags)
+    ta = spec["time_anis"]
+    ct = np.asarray(case["cond_t"], dtype=float) if T else None
+    tt = np.asarray(case["tg_t"], dtype=float) if T else None
+    tmax = float(max(np.max(np.abs(ct)), np.max(np.abs(tt)))) / ta if T else 0.0
+    dr = 64 * EPS * (g + tmax)
+    d_cc, _ = _oracle_dist(clat, clon, clat, clon, g, ct, ct, ta)
+    d_ct, _ = _oracle_dist(clat, clon, tlat, tlon, g, ct, tt, ta)
+    sens = _krige_sens(ref, spec["nugget"], d_cc, d_ct, dr)
+    if sens is None:
+        rec.exclude("ref_model_not_finite")
+        rec.nontrivial(False)
+        return
+    dC, lam, ninv = sens
+    extra_est = 2 * zs * ninv * nc * dC * (1 + lam)
+    extra_var = (2 * lam + lam**2) * dC
     for variant in ("simple", "ordinary"):
         cc = dict(case, variant=variant)
         k0 = _mk_krige(model, cc, pos[:, :nc].copy(), dict(tags, variant=variant))
@@ -1429,18 +1513,22 @@ def check_rotation(case, rec):
         kc = float(np.linalg.cond(k0._krige_mat))
         worst = max(worst, kc)
         rel = max(1e-8, 1e-13 * kc)
+        # 1e-8 relative to the size of the results (extrapolating weights can make
+        # |estimate| >> |data|), plus the position-rounding sensitivity
+        tol_f = rel * max(zs, float(np.max(np.abs(f0)))) + extra_est
         err = float(np.max(np.abs(f0 - f1)))
-        rec.discrepancy(f"{variant}_field", err, rel * zs)
+        rec.discrepancy(f"{variant}_field", err, tol_f)
         require(
-            err <= rel * zs,
-            f"{variant} kriging estimate changes by {err:.3g} under a rotation of the sphere (tol {rel * zs:.3g}, cond {kc:.3g})",
+            err <= tol_f,
+            f"{variant} kriging estimate changes by {err:.3g} under a rotation of the sphere (tol {tol_f:.3g}, cond {kc:.3g})",
             dict(tags, kind="rotation_field", variant=variant),
         )
+        tol_v = rel * max(sill, float(np.max(np.abs(v0)))) + extra_var
         err = float(np.max(np.abs(v0 - v1)))
-        rec.discrepancy(f"{variant}_var", err, rel * sill)
+        rec.discrepancy(f"{variant}_var", err, tol_v)
         require(
-            err <= rel * sill,
-            f"{variant} kriging variance changes by {err:.3g} under a rotation of the sphere (tol {rel * sill:.3g})",
+            err <= tol_v,
+            f"{variant} kriging variance changes by {err:.3g} under a rotation of the sphere (tol {tol_v:.3g})",
             dict(tags, kind="rotation_var", variant=variant),
         )
     rot_angle = 2 * math.acos(min(1.0, abs(case["quat"][0]) / math.sqrt(sum(x * x for x in case["quat"]))))
